@@ -110,9 +110,6 @@ UNIT = {
      {'name': 'section_entries_mapping', 'fn': 'XRefSection::entries', 'file': X, 'props': ['C02'], 'kind': 'bounded',
       'bound': 'sections of <= 4 entries, unwind 6', 'covers': True,
       'contract': 'XRefSection::entries() yields (first_id + k, &entries[k]) for k = 0..len in order (the L0 contract of hoist_section_entries); add_free_entry/add_inuse_entry append Free/Raw with the given fields'},
-     {'name': 'add_entries_newest_wins_small', 'fn': 'XRefTable::add_entries_from', 'file': X, 'props': ['C02'], 'kind': 'bounded',
-      'bound': '3-slot table, one older section of 2 entries, unwind 5', 'covers': True,
-      'contract': 'second opinion and counterexample source for newest_wins: every slot equals merge1 (takes the older entry iff Invalid and mentioned) under the well-formed-history hypothesis'},
      {'name': 'byte_len_complete', 'fn': 'byte_len', 'file': X, 'props': ['C10'], 'kind': 'complete', 'covers': True,
       'contract': 'forall n: u64. 1 <= byte_len(n) <= 8, n < 256^byte_len(n), and byte_len(n) is the least such count'},
    ],
